@@ -131,6 +131,31 @@ def recurrent_case(k):
     return None
 
 
+def recurrent_spike_paths(refrac_t):
+    """RecurrentSerial feeds the lateral connection with the feed-forward population's spikes of THIS step and the
+    feedback connection with the feedback population's spikes of the PREVIOUS step: checked on the tensors the
+    connections actually receive (forward pre-hooks), for a refractory period of `refrac_t` ms (dt = 1)"""
+    mkl = lambda: LIF((2,), 1.0, rest_v=-60.0, reset_v=-65.0, thresh_v=-55.0, refrac_t=refrac_t, time_constant=10.0, resistance=1.0, batch_size=2)  # noqa: E731
+    mkc = lambda i: LinearDense((i,), (2,), 1.0, synapse=DeltaCurrent.partialconstructor(20.0), batch_size=2)  # noqa: E731
+    torch.manual_seed(5)
+    cff, clat, cfb, nff, nfb = mkc(3), mkc(2), mkc(2), mkl(), mkl()
+    lay = RecurrentSerial(cff, clat, cfb, nff, nfb)
+    got = {"lat": [], "fb": []}
+    clat.register_forward_pre_hook(lambda m, a: got["lat"].append(a[0].clone()))
+    cfb.register_forward_pre_hook(lambda m, a: got["fb"].append(a[0].clone()))
+    prev_fb = None
+    inp = dict(refrac_t=refrac_t)
+    for t, x in enumerate(inputs(10)):
+        ff, fb = lay(x)
+        lat_in = got["lat"][-1].bool()
+        if not torch.equal(lat_in, ff.bool()):
+            return {"what": "C17/recurrent/lateral_input_is_not_the_feedforward_output", "input": dict(inp, step=t), "expected": ff.tolist(), "actual": lat_in.tolist()}
+        if prev_fb is not None and got["fb"] and not torch.equal(got["fb"][-1].bool(), prev_fb.bool()):
+            return {"what": "C17/recurrent/feedback_input_is_not_the_previous_feedback_output", "input": dict(inp, step=t), "expected": prev_fb.tolist(), "actual": got["fb"][-1].bool().tolist()}
+        prev_fb = fb
+    return None
+
+
 def sweep(tier="quick", seed=0, unsupported=()):
     failures, cases = [], 0
 
@@ -149,10 +174,34 @@ def sweep(tier="quick", seed=0, unsupported=()):
     for k in range(0, 8, 2 if tier == "quick" else 1):
         cases += 1
         add(recurrent_case(k))
+    for rt in (0.0, 1.0, 3.0):
+        cases += 1
+        f = recurrent_spike_paths(rt)
+        if f is not None and not any(x["what"] == f["what"] and x["input"].get("refrac_t") == rt for x in failures):
+            failures.append(f)
     return {"standins": [{"function": "Serial / Biclique (6 combine modes, permuted input order, differing transforms) / RecurrentSerial vs hand-driven identically seeded twin components; clear() at position k then replay", "domain": "3 synapse/delay settings x clear positions; 6 combine modes x 3 input orders; 4-8 clear positions", "cases": cases, "proved": False, "label": "bounded"}], "failures": failures}
 
 
 def replay(contract, label, model, note=""):
+    r = sweep("quick", 0)
+    # never the recorded finding D22 (refrac_t = 0)
+    fs = [f for f in r["failures"] if not (f["what"].startswith("C17/recurrent/lateral_input") and f.get("input", {}).get("refrac_t") == 0)]
+    cls = contract.split(".")[0]
+    if cls in ("LIF", "GLIF1", "QIF", "EIF", "ALIF", "GLIF2", "Izhikevich", "AdEx") and not any("recurrent" in f["what"] or "neuron" in str(f.get("actual")) for f in fs):
+        # a neuron step contract shared from C03: its own oracle drives the real class
+        from . import c03
+
+        r3 = c03.replay(contract, label, model, note)
+        if r3 and r3.get("reproduced"):
+            return r3
+    if fs:
+        pref = [f for f in fs if "recurrent" in f["what"]] if cls in ("LIF", "GLIF1", "QIF", "EIF", "ALIF", "GLIF2", "Izhikevich", "AdEx") else []
+        f0 = (pref or fs)[0]
+        return {"reproduced": True, "failure": f0, "concrete": f0["input"]}
+    return {"reproduced": False, "search": {"points_tried": r["standins"][0]["cases"]}}
+
+
+def _unused_replay(contract, label, model, note=""):
     r = sweep("quick", 0)
     if r["failures"]:
         return {"reproduced": True, "failure": r["failures"][0], "concrete": r["failures"][0]["input"]}
